@@ -267,6 +267,9 @@ pub fn chance(num: u32, den: u32) -> bool {
 pub fn count(key: &'static str) {
     with(|s| s.count(key))
 }
+pub fn count_n(key: &'static str, n: u64) {
+    with(|s| s.count_n(key, n))
+}
 pub fn now_ns() -> u64 {
     with(|s| s.now_ns)
 }
